@@ -868,12 +868,13 @@ open MW.Lemmas.Deepen3 MW.Lemmas.Deepen4 MW.Lemmas.Deepen5
     window keeps it: the follower handles the next queued notification — a block of the node's chain at ANY height
     (extension; reorganisation of any depth, also below the height at which the wallet was flagged) — on the partly
     deleted wallet.  Hypotheses, both C08's (`DomW` / `irun … = some x`): the block is on the node's chain (no stale
-    notification) and its database transaction succeeds (C08 leaves open whether the follower can fail on stale
-    entries of the wallet being removed). -/
+    notification), and — asked of the LAST queued notification only: a failing transaction changes nothing (one Update),
+    which keeps the invariant while another notification is queued — its database transaction succeeds (C08 leaves open whether the follower can fail on
+    stale entries of the wallet being removed). -/
 theorem jt_removal_window_handler_step {cfg : Cfg} {G : Block} (E : StaticOK cfg.st G) (cr : Bool) {x : SysQ}
     {k : SkelT} {w : Wid} (hJ : JTW cfg G x k) (hbusy : k.busy = some (.rem w))
     (hon : ∀ b, x.queue.head? = some b → k.base.chain[b.height]? = some b)
-    (hok : ∀ b, x.queue.head? = some b →
+    (hok : ∀ b, x.queue = [b] →
       ((opBlock (envAt cfg.st k.base.chain) cfg.n b).run none x.P x.V).ok = true) :
     JTW cfg G (stepT cfg cr x (.q .handle)) (skStepT cfg k (.q .handle)) := JTW_handle E cr hJ hbusy hon hok
 
@@ -915,8 +916,8 @@ theorem crash_tasks_inv_removal_window {cfg : Cfg} {G : Block} (E : StaticOK cfg
     `guardRem`): node events (extensions, reorganisations to any branch), handler steps, unconfirmed transactions
     (ANY: round 4's "in no chain the node has had" is gone), crashes anywhere, iterations, the drain; explicit state
     hypotheses, all of them C08's (`DomW` and the success of the follower's transactions contained in `irun = some`):
-    a handled block is on the node's chain (no stale notification inside a removal window) and its database
-    transaction succeeds; Start succeeds at a crash; `PendOK` at every iteration; the iterations have finished the
+    a handled block is on the node's chain (no stale notification inside a removal window) and — when it is the
+    last queued one — its database transaction succeeds; Start succeeds at a crash; `PendOK` at every iteration; the iterations have finished the
     removal when the drain is called (totality of the loop is proved for round 4's `Mid` only).  NOT covered inside a
     removal window here (covered by `crash_equiv_tasks` for windows without handler steps): CreateWallet / NewAddress
     (no frame lemma of the relaxed state for a growing keystore table). -/
@@ -942,6 +943,35 @@ theorem crash_equiv_tasks_removal_window {cfg : Cfg} {G : Block} (E : StaticOK c
       Lemmas.Deepen3.readyB (runT cfg true x0 evs).P.led w = true ∧
       Lemmas.Deepen3.readyB (runT cfg false x0 evs).P.led w = true) :=
   Lemmas.Deepen5.crash_equiv_tasks_removal_window E hG hb hl evs x0 k0 hJ hR hg1 hg2 hidle hq
+
+/-- the state hypotheses that are NOT about the success / shape of the follower's work: `RemGuard` at RemoveWallet (round 4)
+    and C08's `PendOK` at the iterations -/
+def guardEvW0 (cfg : Cfg) (x : SysQ) (k : SkelT) (ev : EvT) : Prop :=
+  match k.busy, ev with
+  | some (.rem w), .removeStep _ => PendGuard x.P (addrsOf k.base.ks w)
+  | some (.rem _), _ => True
+  | _, ev => guardEv cfg x ev
+def GuardW0 (cfg : Cfg) (cr : Bool) : SysQ → SkelT → List EvT → Prop
+  | _, _, [] => True
+  | x, k, ev :: evs => guardEvW0 cfg x k ev ∧ GuardW0 cfg cr (stepT cfg cr x ev) (skStepT cfg k ev) evs
+
+/-- NOT PROVED (type-checked statement): `crash_equiv_tasks_removal_window` without the hypotheses inherited from C08's
+    open items — success of the follower's transactions / of Start on the partly deleted wallet, no stale notification
+    inside a removal window, the drain called only after the iterations have finished.  (Whether it holds depends on
+    C08's open totality question: can Rollback fail on stale balance / deposit entries of the wallet being removed?) -/
+def crash_equiv_tasks_removal_window_full : Prop :=
+  ∀ {cfg : Cfg} {G : Block}, StaticOK cfg.st G → G.txs = [] → cfg.batch > 0 → cfg.limit > 0 →
+    ∀ (evs : List EvT) (x0 : SysQ) (k0 : SkelT), JTW cfg G x0 k0 → RunOKW cfg G k0 evs →
+      GuardW0 cfg true x0 k0 evs → GuardW0 cfg false x0 k0 evs →
+      (skRunT cfg k0 evs).busy = none → (runT cfg false x0 evs).queue = [] →
+      (runT cfg true x0 evs).queue = [] ∧
+      (runT cfg true x0 evs).P.ks = (runT cfg false x0 evs).P.ks ∧
+      (runT cfg true x0 evs).V.keys = (runT cfg false x0 evs).V.keys ∧
+      AMap.Equiv (runT cfg true x0 evs).P.led.credits (runT cfg false x0 evs).P.led.credits ∧
+      AMap.Equiv (runT cfg true x0 evs).P.led.unspent (runT cfg false x0 evs).P.led.unspent ∧
+      AMap.Equiv (runT cfg true x0 evs).P.led.debits (runT cfg false x0 evs).P.led.debits ∧
+      AMap.Equiv (runT cfg true x0 evs).P.led.txrecs (runT cfg false x0 evs).P.led.txrecs ∧
+      (runT cfg true x0 evs).V.led.best = (runT cfg false x0 evs).V.led.best
 
 /-- on histories inside round 4's hypotheses that open no removal window … the new invariant is the old one -/
 example {cfg : Cfg} {G : Block} {x : SysQ} {k : SkelT} (h : JT cfg G x k) (hb : ∀ w, k.busy ≠ some (.rem w)) :
